@@ -252,6 +252,7 @@ func runControls(dir string) *controlResult {
 		{"MEMO-COMMIT", map[string]bool{"(*rowCache).BadCommitBeforeLoad": true, "(*rowCache).GoodCommitAfterLoad": false}},
 		{"LOCS-IMPLY-FREQNORM", map[string]bool{"BadFlagsLocsWithoutFreqNorm": true, "GoodFlagsLocsImplyFreqNorm": false}},
 		{"SEEN-UNCONDITIONAL", map[string]bool{"(*ctlBuilder).BadSeenOnlyWithTerms": true, "(*ctlBuilder).GoodSeenAlways": false}},
+		{"KEY-NIL-AMBIGUOUS", map[string]bool{"(*lowTracker).BadNilKeyMeansUnset": true, "(*lowTracker).GoodCountMeansUnset": false}},
 		{"FLUSH-SITES-AGREE", map[string]bool{"BadFlushSitesLastTermUntracked": true, "GoodFlushSitesAllTracked": false}},
 	} {
 		rule := rules[rc.rule]
